@@ -106,7 +106,8 @@ class G:
         r = self.r
         ch = r.random()
         if d <= 0 or ch < 0.3:
-            return r.choice([C(1), attr(N("j"), "pt"), N("v"), attr(N("e"), "x")])
+            # (constants as the library itself creates them when it embeds captured values: nodes the parser never produces)
+            return r.choice([C(1), attr(N("j"), "pt"), N("v"), attr(N("e"), "x"), C(-5), C(-2.5), C(1 + 2j), C((1, 2)), C(-0.0), C(10**30), C(b"x")])
         if ch < 0.75:
             return self.shortcut(d)
         if ch < 0.9:
